@@ -118,11 +118,11 @@ def cost(e):
     elif ev == "keygen":
         c = (2 ** hp) * wots if e["full"] else 5
     elif ev == "sign_digest":
-        c = 5 if (e["err"] or e["panic"]) else ((fors + d * (xs + ln * 8)) if e.get("full") else verify)
+        c = 5 if (e["err"] or e["panic"]) else {"full": fors + d * (xs + ln * 8), "fors": fors + 2 * verify}.get(e["mode"], 2 * verify)
     elif ev == "verify_digest":
         c = verify
     elif ev == "sign_internal":
-        c = (fors + d * (xs + ln * 8)) if e.get("full") else verify
+        c = (fors + d * (xs + ln * 8)) if e.get("full") else 2 * verify
     elif ev == "sign":
         if e["err"] or e["panic"]:
             c = 5
@@ -131,7 +131,7 @@ def cost(e):
         elif e["det"] and e["mode"] == "piece":
             c = fors if e["piece"] == 0 else xs + k * (1 + a) + e["piece"] * (ln * 8 + hp)
         else:
-            c = verify
+            c = 2 * verify
     elif ev == "split":
         c = 3 * (k + d)
     elif ev == "rootcmp":
